@@ -5,9 +5,10 @@ EXTENDS Hostile
 CONSTANTS MaxFrames, EmitReplay
 VARIABLES role, frames
 Meaningful(f) ==   \* payload classes only matter for commands that look at their payload
-    /\ (f.cmd \in {4, 10} => f.pay \in {"empty", "garbage", "settings-ok", "settings-odd", "max"})
-    /\ (f.cmd = 6 => f.pay \in {"empty", "garbage", "scheme-ok", "scheme-big", "scheme-huge", "scheme-neg", "scheme-nonnum", "max"})
-    /\ (f.cmd \in {0, 2, 5, 7, 99} => f.pay \in {"empty", "garbage", "max"})
+    /\ (f.cmd \in {4, 10} => f.pay \in {"empty", "garbage", "settings-ok", "settings-odd", "max", "text-nonascii"})
+    /\ (f.cmd = 6 => f.pay \in {"empty", "garbage", "scheme-ok", "scheme-big", "scheme-huge", "scheme-neg", "scheme-nonnum", "max", "text-nonascii"})
+    /\ (f.cmd \in {0, 2, 99} => f.pay \in {"empty", "garbage", "max"})
+    /\ (f.cmd \in {5, 7} => f.pay \in {"empty", "garbage", "max", "text-nonascii"})       \* alert / error texts
     /\ (f.cmd \in {1, 3, 8, 9} => f.pay \in {"empty", "garbage"})
     /\ (f.cmd \in {4, 5, 6, 10} => f.sid \in {"zero", "open"})
 Alphabet == {f \in [cmd : Cmds, sid : Sids, pay : Pays] : Meaningful(f)}
